@@ -16,8 +16,8 @@ UNITS = [1000, 3500, 700, 13000, 250]   # ms per tick: also sizes that are not d
 def consts(kind, c, emit, prop=None):
     if kind == "session":
         kd = vlib.known_devs(prop) if prop else {}
-        return "T = %d MOO = %d AL = %d MaxTs = %d MaxEv = %d Keys = {\"a\",\"b\"} ChanCap = 100 LateAnyKey = FALSE DevMerge = %s DevStart = %s Emit = %s" % (
-            c["size"], c["moo"], c["al"], c["maxts"], c["maxev"], "TRUE" if "SessionMergeAcrossGap" in kd else "FALSE",
+        return "T = %d MOO = %d AL = %d MaxTs = %d MaxEv = %d Keys = {\"a\",\"b\"} ChanCap = 100 LateAnyKey = FALSE KeepOlder = TRUE OnlyLate = %s DevMerge = %s DevStart = %s Emit = %s" % (
+            c["size"], c["moo"], c["al"], c["maxts"], c["maxev"], "TRUE" if c.get("onlylate") else "FALSE", "TRUE" if "SessionMergeAcrossGap" in kd else "FALSE",
             "TRUE" if "SessionStartFirstArrival" in kd else "FALSE", "TRUE" if emit else "FALSE")
     s = "Size = %d MOO = %d AL = %d MaxTs = %d MaxEv = %d ChanCap = %d Reanchor = TRUE Emit = %s" % (
         c["size"], c["moo"], c["al"], c["maxts"], c["maxev"], c.get("chancap", 100), "TRUE" if emit else "FALSE")
@@ -30,7 +30,7 @@ def model_check(res, kind, c, workers=8, timeout=900):
     invs = "DeliveriesOK NoOnTimeLoss WmOK ImplOK" + (" NotBeforeS0" if kind == "sliding" else "")
     cfg = "SPECIFICATION Spec\nCONSTANTS %s\nINVARIANTS %s\nPROPERTY WmMonotone\nVIEW View\nCHECK_DEADLOCK FALSE\n" % (consts(kind, c, False, res.prop), invs)
     if kind == "session":
-        cfg = "SPECIFICATION Spec\nCONSTANTS %s\nINVARIANTS DeliveriesOK NoLoss NoSplit WmOK\nVIEW View\nCHECK_DEADLOCK FALSE\n" % consts(kind, c, False, res.prop)
+        cfg = "SPECIFICATION Spec\nCONSTANTS %s\nINVARIANTS DeliveriesOK NoLoss NoSplit WmOK NoLateDrop\nVIEW View\nCHECK_DEADLOCK FALSE\n" % consts(kind, c, False, res.prop)
     if c["al"] > 0 and kind == "tumbling" and "LateUpdateOvertakes" in vlib.known_devs(res.prop):
         cfg = cfg.replace("INVARIANTS DeliveriesOK", "INVARIANTS OneFirstFiring DeliveriesOKDev")
     r = vlib.tlc(SPEC, MODULE[kind], cfg, workers=workers, timeout=timeout)
